@@ -59,6 +59,12 @@ def _cond(e, val):
     if s == 'obj.is_infinite':
         return val['inf']
     if isinstance(e, ast.Compare) and len(e.ops) == 1 and \
+            isinstance(e.ops[0], ast.NotEq) and \
+            isinstance(e.comparators[0], ast.Constant):
+        r = _cond(ast.Compare(left=e.left, ops=[ast.Eq()],
+                              comparators=e.comparators), val)
+        return None if r is None else not r
+    if isinstance(e, ast.Compare) and len(e.ops) == 1 and \
             isinstance(e.ops[0], ast.Eq) and \
             isinstance(e.comparators[0], ast.Constant):
         l = unparse(e.left)
@@ -271,6 +277,7 @@ def aim(ctx):
     fy = A('self.optic.fields.max_field') * A('Hy')
     cases = [(False, True, 'angle', 'infinite object, angular field'),
              (False, False, 'object_height', 'finite object, height field'),
+             (False, False, 'angle', 'finite object, angular field'),
              (True, False, 'object_height', 'telecentric object space')]
     for tele, inf, ft, name in cases:
         try:
@@ -326,6 +333,26 @@ def aim(ctx):
                     'AIM', org or gen, None,
                     f'{name}: origin ({x0}, {y0}, {z0}) is not the object '
                     f'point (Hx, Hy) * max_field on the object surface',
+                    construct=f'{name}: origin'))
+        if ft == 'angle' and not inf:
+            # the object point is where the chief ray, inclined by the field
+            # angle at the entrance pupil centre, meets the object plane
+            zob = [a_ for a_ in (z0.atoms() if isinstance(z0, Rat) else [])
+                   if a_.endswith('surface_group.positions[0]')]
+            ty = sym.sin(fy * A('pi') / C(180)) / sym.cos(fy * A('pi') / C(180))
+            tx = sym.sin(fx * A('pi') / C(180)) / sym.cos(fx * A('pi') / C(180))
+            oka = len(zob) == 1 and rat_eq(z0, A(zob[0])) and \
+                sym.eq(y0, -ty * (A('EPL') - z0)) and \
+                sym.eq(x0 * x0, tx * tx * (A('EPL') - z0) * (A('EPL') - z0))
+            if oka:
+                res.ok(f'{name}: origin on the object plane at '
+                       f'-tan(theta) (EPL - z_object)')
+            else:
+                res.fail(ctx.finding(
+                    'AIM', org or gen, None,
+                    f'{name}: the ray origin ({x0}, {y0}, {z0}) is not the '
+                    f'point of the object plane seen from the entrance pupil '
+                    f'centre under the field angle',
                     construct=f'{name}: origin'))
         if inf:
             # with the first surface at z = 0 the chief direction has slope
@@ -816,7 +843,8 @@ def registry(ctx):
                              'the maximum field (unit of the normalised field '
                              'coordinates) is not the largest radial field',
                              construct='max_field'))
-    for nm, ax in (('x_fields', 'x'), ('y_fields', 'y')):
+    for nm, ax in (('x_fields', 'x'), ('y_fields', 'y'), ('vx', 'vx'),
+                   ('vy', 'vy')):
         pr = P.classes['FieldGroup'].props.get(nm)
         if pr is not None and find(pr, f'np.array([$f.{ax} for $f in self.fields])'):
             res.ok(f'{nm}: {ax} of every field')
